@@ -102,7 +102,7 @@ type CoversCase struct {
 }
 
 // the last six are lower-case letters that are related by Unicode case FOLDING only (σ/ς, µ/μ, ſ/s): distinct segments
-var segAlphabet = []string{"a", "b", "ab", "foo", "foobar", "é", "1", "a-b", "", "σ", "ς", "µ", "μ", "ſ", "s"}
+var segAlphabet = []string{"a", "b", "ab", "foo", "foobar", "é", "1", "a-b", "", "σ", "ς", "µ", "μ", "ſ", "s", ".", ".."}
 
 var nonEmptySegs = func() []string {
 	var out []string
